@@ -23,14 +23,15 @@ func findOutputDeps(instrs []*instruction) {
 // findOutputDepsReg finds register-based output dependencies in the code.
 func findOutputDepsReg(ins *instruction, regs keyInsMap) {
 	for r := range ins.outRegs {
-		dep, ok := regs[r]
-		if !ok {
-			regs[r] = ins
-			continue
+		// We are certain that dep != ins.
+		if dep, ok := regs[r]; ok {
+			addDep(ins, dep)
 		}
 
-		// We are certain that i != ins.
-		addDep(ins, dep)
+		// Every write has to depend on the closest following write.
+		// Dependency just on the last write of the register would allow
+		// to swap two earlier writes which have a read in between.
+		regs[r] = ins
 	}
 }
 
